@@ -149,6 +149,8 @@ def replay(case):
         d = parse_case(case["args"], case["kwargs"])
     elif case.get("kind") == "text":
         d = text_case(case)
+    elif case.get("kind") == "helper":
+        d = helper_case(case)
     else:
         d = apply_case(case)
     return d == "", d
@@ -284,6 +286,69 @@ def bounded(check, tier, seed):
     s.done()
 
 
+def helper_case(case):
+    """a fmtfuncs helper called like fmtstr - helper(value, *names, **keywords) - names the helper's own attribute AND the rest: the
+    outcome must be that of the specification (helper's name, *names, **keywords): ValueError when that is invalid (red(s, fg='blue')
+    names the foreground twice), otherwise exactly those attributes on every character"""
+    from curtsies import fmtfuncs
+    from curtsies.formatstring import fmtstr as _fmtstr
+    name, args, kw = case["helper"], tuple(case["args"]), dict(case["kwargs"])
+    own = {"on_dark": "on_black", "plain": None}.get(name, name)
+    value = case["text"] if case.get("runs") is None else FmtStr(*[Chunk(t, dict(a)) for t, a in case["runs"]])
+    base = cells(_fmtstr(value)) if isinstance(value, str) else cells(value)
+    full = ((own,) if own else ()) + args
+    try:
+        named, mistyped = spec_parse(full, kw)
+        inv = None
+    except Invalid as e:
+        named, mistyped, inv = None, False, str(e)
+    try:
+        got = cells(getattr(fmtfuncs, name)(value, *args, **kw))
+        err = None
+    except Exception as e:      # noqa: BLE001
+        got, err = None, e
+    if inv is not None:
+        if isinstance(err, ValueError):
+            return ""
+        return (f"{name}(value, *{args}, **{kw}) is the invalid specification {full} {kw} ({inv}): expected ValueError, "
+                + (f"it returned {got}" if err is None else f"it raised {err!r}"))
+    if mistyped:
+        return ""       # (C14.parse_args decides these: the recorded finding)
+    if err is not None:
+        return f"{name}(value, *{args}, **{kw}) raised {err!r}: the specification {full} {kw} is valid"
+    lows = [str(a).lower() for a in full]
+    exps = [named]
+    for k in named:     # a style named both ways (bold(s, bold=False)): either value, as in C14.parse_args
+        if k in STYLES and k in kw and k in lows:
+            exps.append(dict(named, **{k: True}))
+    for n_ in exps:
+        exp = [(c, tuple(sorted((k, v) for k, v in dict(dict(a), **n_).items() if v is not False))) for c, a in base]
+        if got == exp:
+            return ""
+    return f"{name}(value, *{args}, **{kw}) shows {got}; the attributes named ({full} {kw}) on every character give {exp}"
+
+
+def helpers(check, tier):
+    from curtsies import fmtfuncs
+    names = [n for n in fmtfuncs.__dict__ if not n.startswith("_") and callable(getattr(fmtfuncs, n)) and n not in ("fmtstr", "partial")]
+    argpool = [(), ("bold",), ("on_blue",), ("red",), ("underline", "on_red"), ("nope",)]
+    s = Suite(check, "C14.helpers_with_arguments", f"each of the {len(names)} fmtfuncs helpers called like fmtstr - helper(value, *names, **keywords) - with 6 "
+              "positional tuples x the 25-entry keyword pool, on text and on a formatted two-run value: ValueError exactly when (helper's name, "
+              "*names, **keywords) is an invalid specification (the same attribute named twice: red(s, fg='blue'), on_red(s, 'on_blue')), else "
+              "exactly the named attributes on every character", bound=f"{len(names)} helpers x 6 x 25 x 2 values")
+    for name in names:
+        for args in argpool:
+            for kw in KWPOOL:
+                for runs in (None, [["a", {"fg": 32, "bold": True}], ["b", {"bg": 41}]]):
+                    case = dict(kind="helper", helper=name, args=list(args), kwargs=kw, text="ab", runs=runs)
+                    s.case((name, args, repr(kw), runs is None), sample=case)
+                    d = helper_case(case)
+                    if d:
+                        s.fail("C14.helper_arguments", dict(case, helper_style_keyword=("style" in kw and name != "plain")), d,
+                               replay={"kind": "suite", "module": "props.C14", "case": case})
+    s.done()
+
+
 def _rand_atts(rng):
     d = {}
     if rng.random() < .5:
@@ -363,3 +428,4 @@ def apply_case(case, value=None):
 def run(check, tier, seed):
     deductive(check, tier)
     bounded(check, tier, seed)
+    helpers(check, tier)
